@@ -278,6 +278,9 @@ func runIsolated(c *Check, f *Family, tier string, res *result, deadline time.Ti
 						kind = "out-of-memory"
 					}
 					site := fatalSite(last)
+					if f.CrashClass != nil {
+						site = f.CrashClass(idx)
+					}
 					in := fmt.Sprintf("family %s case %d (see replay: index addresses the generated input)", f.Name, idx)
 					res.addFailure(Failure{Property: c.ID, Sig: f.Name + ":" + kind + ":" + site, Family: f.Name, Index: idx, Input: in, Expected: "returns a value or an error", Observed: clip(last)})
 				} else if died > 0 {
